@@ -257,6 +257,9 @@ func (d *decoder) decode() (Item, error) {
 		if acc != big.Exact {
 			return nil, fmt.Errorf("%w (integer)", ErrInvalidValue)
 		}
+		if err := CheckIntegerSize(num); err != nil {
+			return nil, mkErrValue(err)
+		}
 		return NewBigInteger(num), nil
 	case bool:
 		return NewBool(t), nil
@@ -293,6 +296,9 @@ func (d *decoder) decodeMap() (*Map, error) {
 		}
 
 		var keyItem = NewByteArray([]byte(k))
+		if err := IsValidMapKey(keyItem); err != nil {
+			return nil, mkErrValue(err)
+		}
 		if m.Has(keyItem) {
 			return nil, errors.New("duplicate object property")
 		}
@@ -475,6 +481,9 @@ func FromJSONWithTypes(data []byte) (Item, error) {
 		val, ok := new(big.Int).SetString(s, 10)
 		if !ok {
 			return nil, mkErrValue(errors.New("not an integer"))
+		}
+		if err := CheckIntegerSize(val); err != nil {
+			return nil, mkErrValue(err)
 		}
 		return NewBigInteger(val), nil
 	case ByteArrayT, BufferT:
